@@ -288,13 +288,44 @@ func (f *frame) call(res ssa.Value, c *ssa.CallCommon, st *State, cur string) (s
 			return f.inline(res, plan, c, st, cur)
 		}
 	}
-	// havoc
-	t.trust("callee without contract, heap havocked: " + plan.name)
-	B.note("havoc call %s in %s", plan.name, f.fn.Name())
-	cur = t.havocAll(st, cur, false)
+	// callee without contract that cannot be inlined: havoc what it may modify (inferred summary over the CHA call graph)
+	var ci ssa.CallInstruction
+	if cv, ok := res.(*ssa.Call); ok {
+		ci = cv
+	} else if f.site != nil {
+		ci = f.site
+	}
+	eff := newEffects()
+	t.siteEffects(f, c, ci, eff, t.P.summaries(t.DB))
 	sig := plan.sig
 	if sig == nil {
 		sig = c.Signature()
+	}
+	if eff.all {
+		t.trust("callee without contract, whole heap havocked: " + plan.name)
+		B.note("havoc call %s in %s", plan.name, f.fn.Name())
+		cur = t.havocAll(st, cur, !eff.trace)
+		setRes(freshResults(sig, false))
+		return cur, nil
+	}
+	t.trust("callee without contract, inferred modifies set havocked: " + plan.name)
+	bumpAlloc()
+	for _, name := range sortedKeys(eff.arrs) {
+		if strings.HasPrefix(name, "L:") {
+			continue
+		}
+		sortA := t.descSort(eff.arrs[name])
+		if _, ok := t.arrSort[name]; !ok {
+			t.arrSort[name] = sortA
+		}
+		st.heap[name] = B.declConst(B.fresh(name), sortA)
+	}
+	if eff.trace {
+		oldN, oldT := st.ntrace, st.trace
+		st.trace = B.declConst(B.fresh("trace"), "(Array Int Event)")
+		st.ntrace = B.declConst(B.fresh("ntrace"), "Int")
+		cur = and(cur, fmt.Sprintf("(>= %s %s)", st.ntrace, oldN),
+			fmt.Sprintf("(forall ((?i Int)) (! (=> (and (<= 0 ?i) (< ?i %s)) (= (select %s ?i) (select %s ?i))) :pattern ((select %s ?i))))", oldN, st.trace, oldT, st.trace))
 	}
 	setRes(freshResults(sig, false))
 	return cur, nil
@@ -460,7 +491,8 @@ func (f *frame) contractCall(res ssa.Value, plan callPlan, c *ssa.CallCommon, st
 	if res != nil {
 		pos = res.Pos()
 	}
-	envPre, err := f.contractEnv(plan, args, st)
+	old := st.clone()
+	envPre, err := f.contractEnv(plan, args, old)
 	if err != nil {
 		return cur, err
 	}
@@ -483,7 +515,6 @@ func (f *frame) contractCall(res ssa.Value, plan callPlan, c *ssa.CallCommon, st
 		f.addObl("requires", short+"."+r.Name, cur, g, r, pos, nil)
 		cur = and(cur, g)
 	}
-	old := st.clone()
 	// effects
 	if fc.Pure {
 		// result is an uninterpreted function of the arguments
